@@ -194,3 +194,7 @@ mod unicodetables;
 
 #[cfg(feature = "backend-pikevm")]
 mod pikevm;
+
+#[cfg(regress_verif)]
+#[doc(hidden)]
+pub mod verif;
